@@ -37,7 +37,7 @@ class FlowRecord:
 
 
 class HttpWorld:
-    def __init__(self, env: SimEnv, cfg: dict, addons: Optional[list] = None, logger=None):
+    def __init__(self, env: SimEnv, cfg: dict, addons: Optional[list] = None, logger=None, sm=None):
         import hippolyzer.lib.proxy.sessions as sessions_mod
         from hippolyzer.lib.proxy.addons import AddonManager
         from hippolyzer.lib.proxy.http_event_manager import MITMProxyEventManager
@@ -57,14 +57,21 @@ class HttpWorld:
                 return 0.0
             r = lat_rng.random()
             return 0.0 if r < 0.3 else round(lat_rng.random() * scale, 5)
-        env._patch(sessions_mod, "HTTPFlowContext", make_flow_context_cls(env.loop, lat, lat))
-        env._patch(sessions_mod, "multiprocessing", _MPShim())
-        self.settings = ProxySettings()
-        self.sm = SessionManager(self.settings)
-        self.sm.message_logger = logger
-        env._patch(AddonManager, "SCHEDULER", TaskScheduler())
+        if sm is None:
+            env._patch(sessions_mod, "HTTPFlowContext", make_flow_context_cls(env.loop, lat, lat))
+            env._patch(sessions_mod, "multiprocessing", _MPShim())
+            self.settings = ProxySettings()
+            self.sm = SessionManager(self.settings)
+            self.sm.message_logger = logger
+            env._patch(AddonManager, "SCHEDULER", TaskScheduler())
+            AddonManager.init([], self.sm, addon_objects=list(addons or []))
+        else:
+            # ride on an existing session manager (e.g. a UdpWorld's): one proxy, both producers
+            self.sm = sm
+            self.settings = sm.settings
+            sm.flow_context.from_proxy_queue.latency = lat
+            sm.flow_context.to_proxy_queue.latency = lat
         self.addon_manager = AddonManager
-        AddonManager.init([], self.sm, addon_objects=list(addons or []))
         self.flow_context = self.sm.flow_context
         self.mitm_addon = SLMITMAddon(self.flow_context)
         self.event_manager = MITMProxyEventManager(self.sm, self.flow_context)
